@@ -76,6 +76,7 @@ def run(ctx):
     statuslib.run_property(ctx, 'C03', n_random, exh_len=(3 if quick and ctx.boost == 1 else 4 if quick else 5),
                            macro_len=(3 if quick and ctx.boost == 1 else 4),
                            shared_len=(3 if quick and ctx.boost == 1 else 4),
+                           utd_len=(3 if quick and ctx.boost == 1 else 4),
                            parallel_share=0.0, n_info=(20 if quick else 300))
 
 
